@@ -603,6 +603,13 @@ def preprocess_observation(
         return preprocessed_obs
 
     elif isinstance(observation_space, spaces.Tuple):
+        if isinstance(observation, TensorDict):
+            # Replay buffers store tuple observations as TensorDicts (see `to_tensordict`)
+            observation = tuple(
+                observation[f"tuple_obs_{i}"]
+                for i in range(len(observation_space.spaces))
+            )
+
         assert isinstance(
             observation, tuple
         ), f"Expected tuple, got {type(observation)}"
